@@ -88,7 +88,7 @@ EXPLANATION = ("Deductive: calculate_torsion_angle_coords (tertiary.py) returns 
                "calculate_torsion_angle_coords; Residue3D.__chi_purine / __chi_pyrimidine return the torsion O4'-C1'-N9-C4 / O4'-C1'-N1-C2 (atom table "
                "pinned from IUPAC-IUB 1983; the reversed listing is the same angle by the proved lemmas torsion_of_reversal / nondegenerate_reversal, every "
                "other atom or order is refused) or NaN when an atom is missing; Residue3D.chi is the purine torsion for A G a g, the pyrimidine torsion "
-               "for C U T c u t, and one of the two or NaN for any other letter (that case is not pinned by C18); Residue3D.chi_class is anti whenever "
+               "for C U T c u t; for any other ASCII letter and the placeholders ? * - . (clause unknown-letter:...) the purine quadruple decides when its four atoms are present (IUPAC: the base bonded through N9 is a purine), else the pyrimidine quadruple; Residue3D.chi_class is anti whenever "
                "that torsion lies in [-180, -140] degrees (the A-form band) and None when chi is undefined - where syn ends and anti begins is NOT "
                "pinned by C18 (code: syn = (-30, 120) degrees; any limits that keep the band anti satisfy the clause); detect_cis_trans answers 'c' iff "
                "the torsion C1'(i)-N(i)-N(j)-C1'(j) (N = N9 for A G, N1 for C U T) is within 90 degrees of 0 and 't' iff it is further away (1e-6 degree "
@@ -119,13 +119,23 @@ def bounded(tier, seed):
     planar = run_cases("exact-planar", T.planar_cases(), T.check_planar, lambda c: True,
                        "exactly coplanar cis / trans arrangements on integer and 3-decimal coordinates in the three coordinate planes (sine term exactly 0.0): expected 0 / pi",
                        "144 point sets", sig=lambda c: f"{c[0]}:{c[1][3]}", relates="calculate_torsion_angle")
-    return [planar, {"name": "constructed-dihedral", "evaluations": ev, "distinct_nontrivial": nt, "violations": list(viol.values()),
+    import os
+    from gen import structures as G
+    files = [p for p in G.corpus("quick") if os.path.getsize(p) < 400000][: (8 if tier == "quick" else 40)]
+    chi = run_cases("chi-of-corpus-residues", files, T.check_chi, lambda c: True,
+                    "Residue3D.chi of the nucleotides of corpus structures (first 60 residues each), under the residue's own letter and under letters that say neither purine "
+                    "nor pyrimidine (N, ?, x): the IUPAC torsion of the quadruple the base's atoms select (N9 present: purine), NaN when incomplete",
+                    f"{len(files)} structures x 4 letters", sig=os.path.basename, relates="Residue3D.chi")
+    return [planar, chi, {"name": "constructed-dihedral", "evaluations": ev, "distinct_nontrivial": nt, "violations": list(viol.values()),
              "samples": [{"phi": cases[0][0], "seed": cases[0][1]}],
              "rule": "phi uniform in (-pi, pi] plus boundary values, bond lengths 0.8-2.5, bond angles 20-160 deg, random rotation and translation (+-300 A); non-trivial = |sin phi| > 1e-3",
              "bound": f"{len(cases)} constructions"}]
 
 
 def replay(inp):
+    if inp.get("check") == "chi-of-corpus-residues":
+        errs = T.check_chi(inp["case"])
+        return {"fails": bool(errs), "errors": errs[:3]}
     if inp.get("check") == "exact-planar":
         c = inp["case"]
         errs = T.check_planar((c[0], [tuple(p) for p in c[1]]))
